@@ -25,8 +25,8 @@ Theorem C20_exactly_once_if_no_break_fail : forall c cb n s,
 Proof. exact exactly_once_if_no_break_fail. Qed.
 Print Assumptions C20_exactly_once_if_no_break_fail.
 
-(* never more callbacks at once than the bound (no cancellation, or with the
-   Acquire error honoured) *)
+(* never more callbacks at once than the bound (any configuration: no
+   cancellation, or the Acquire error honoured -- as the code does now) *)
 Theorem C20_bound_respected : forall c cb n s b,
   reach c cb n s -> fix_acqerr c = true \/ cancelled s = false ->
   bound c = Some b -> running n s <= b.
@@ -61,28 +61,49 @@ Theorem C20_no_panic : forall c cb n s,
 Proof. exact no_panic. Qed.
 Print Assumptions C20_no_panic.
 
-(* FULL STATEMENT (documented behaviour): with a bound of 1, peach behaves exactly
-   like each -- [peach1_equiv_each_stmt c].  It is FALSE of the code as it is
-   (the dispatcher tests broken before it blocks in Acquire): *)
-Theorem C20_peach1_extra_callback_refuted : ~ peach1_equiv_each_stmt (faithful (Some 1)).
-Proof. exact peach1_extra_callback_refuted. Qed.
-Print Assumptions C20_peach1_extra_callback_refuted.
+(* With a bound of 1, peach behaves exactly like each (documented behaviour), for
+   every number of inputs, every callback behaviour and EVERY schedule: when it has
+   returned (without cancellation) the same callbacks were run -- in particular
+   nothing after a callback that broke or failed --, the outputs are the same
+   SEQUENCE and the exceptions are the same.
+   [peach1_equiv_each_stmt c] := forall cb n s, reach c cb n s -> pc s = DDone ->
+     cancelled s = false -> (forall i, calls s i = each_calls cb n i)
+     /\ out s = e_out (each_pre cb n) /\ errs s = e_errs (each_pre cb n).
+   (Before the fix for finding peach1-break-before-last this was refuted.) *)
+Theorem C20_peach1_equiv_each : peach1_equiv_each_stmt (faithful (Some 1)).
+Proof. exact peach1_equiv_each. Qed.
+Print Assumptions C20_peach1_equiv_each.
 
-(* peach1_equiv_each for the REPAIRED dispatcher (fix_recheck = true):
-     forall f, peach1_equiv_each_stmt (mkCfg (Some 1) true f)
-   (same calls, same output sequence, same errors as each) is the stated goal.
-   Proved in this round is the part the defect is about -- _partial, see
-   checks/C20.md: with one worker and broken re-tested after Acquire, in every
-   reachable state of every schedule, no callback has been entered for an input
-   that comes after one whose callback broke or failed and returned (each does
-   the same: it stops at the first break / failure). *)
-Theorem C20_peach1_no_callback_after_break_repaired_partial : forall c cb n,
+(* the same for any dispatcher configuration with one worker and the re-test *)
+Theorem C20_peach1_equiv_each_general : forall c cb n,
+  bound c = Some 1 -> fix_recheck c = true ->
+  forall s, reach c cb n s -> pc s = DDone -> cancelled s = false ->
+  (forall i, calls s i = each_calls cb n i)
+  /\ out s = e_out (each_pre cb n) /\ errs s = e_errs (each_pre cb n).
+Proof. exact peach1_equiv_each_proved. Qed.
+Print Assumptions C20_peach1_equiv_each_general.
+
+(* in every reachable state (not only at the end): no callback has been entered
+   for an input after one whose callback broke or failed and returned *)
+Theorem C20_peach1_no_callback_after_break : forall c cb n,
   bound c = Some 1 -> fix_recheck c = true ->
   forall s, reach c cb n s -> cancelled s = false ->
   forall i j, i < j -> posted (st s i) = true -> is_breaker (cb_kind (cb i)) = true ->
   calls s j = 0.
-Proof. exact peach1_no_callback_after_break_repaired. Qed.
-Print Assumptions C20_peach1_no_callback_after_break_repaired_partial.
+Proof. exact peach1_no_callback_after_break. Qed.
+Print Assumptions C20_peach1_no_callback_after_break.
+
+(* each itself: it runs input i iff i < n and no earlier callback broke or failed *)
+Theorem C20_each_calls_spec : forall cb n i,
+  each_calls cb n i = if (i <? n) && nbb cb i then 1 else 0.
+Proof. exact each_calls_spec. Qed.
+Print Assumptions C20_each_calls_spec.
+
+(* under cancellation too (the Acquire error is honoured): bound and semaphore *)
+Theorem C20_bound_respected_under_cancel : forall b cb n s k,
+  reach (faithful b) cb n s -> b = Some k -> running n s <= k.
+Proof. exact peach_bound_under_cancel. Qed.
+Print Assumptions C20_bound_respected_under_cancel.
 
 (* run-parallel: when it has returned, every function was entered exactly once,
    has finished, and its exception is stored in its slot (all reported by
@@ -109,10 +130,11 @@ Theorem C20_oracle_sound_runpar : forall fs o,
 Proof. exact check_runpar_sound. Qed.
 Print Assumptions C20_oracle_sound_runpar.
 
-(* non-vacuity: the witness schedule really ends in DDone with callback 1 entered *)
+(* non-vacuity: the schedule that used to start one callback too many ends in
+   DDone with only callback 0 entered *)
 Example C20_example_witness_runs :
   match exec (faithful (Some 1)) w_cb 3 init w_sched with
-  | Some s => calls s 0 = 1 /\ calls s 1 = 1 /\ calls s 2 = 0 /\ out s = [1%N; 101%N]
+  | Some s => pc s = DDone /\ calls s 0 = 1 /\ calls s 1 = 0 /\ calls s 2 = 0 /\ out s = [1%N] /\ held s = 0
   | None => False
   end.
 Proof. vm_compute. repeat split; reflexivity. Qed.
